@@ -108,12 +108,12 @@ CHECKS.update({
     "C08": dict(
         level="exploration", engine="bex",
         text="Every pipeline numbers(n).map(counting closure) -> <=2 (thorough: <=3) lazy stages out of 18 variants (map, accept, skip, top, combine*, iir*, number, "
-             "compact, +, cross, fsm) -> 8 short-circuit consumers (first, single, top(k).size/.string, present, indexWhere, ~, multiUse of two of them), decisive "
+             "compact, +, cross, fsm) -> 9 short-circuit consumers (first, single, top(k).size/.string, present, indexWhere, v~list, [v]~list, multiUse of two of them), decisive "
              "position 0..6 or absent, source lengths {0,1,2,5,k+5,24,10^11}, with one failing call at every position 0..needed+3 of the source, of each stage "
              "closure and of the consumer predicate, or nowhere (1.7 M / 38 M cases), is executed on the real code with counting host functions that abort after "
              "1000 calls. Call counts must lie between the needed prefix and needed + one read-ahead per stage of a declarative demand model whose transfer "
              "functions are validated against brute-force prefix stability; the result must be what the needed prefix determines (a failure inside it surfaces, "
-             "behind it does not); unconsumed pipelines evaluate nothing. Coop build: one slow map/accept stage, 10 consumers, decisive source element 10..15, "
+             "behind it does not); unconsumed pipelines evaluate nothing. Coop build: one slow map/accept stage, 11 consumers, decisive source element 10..15, "
              "W=2 (thorough: 2,3): ALL interleavings on n=30 (terminates, sequential result, needed <= calls) and all timing-consistent interleavings on n=30 and "
              "10^11 (calls <= sequential demand + W, pulls <= +1, independent of the source length).",
         note="Trusted: the check's own eager reference and demand model (cmd/c08/model.go, validated against brute force over 32 continuations), the counting host "
